@@ -27,6 +27,7 @@ def prog(inst_l: bool, k: int, o1: int, t1: int, v1: int, o2: int, t2: int, v2: 
             l = param.List(default=[0], instantiate=inst_l, allow_refs=True)
             c = param.Parameter(default=None, constant=True)
             s = param.Selector(objects=[], check_on_set=False)
+            sd = param.Selector(objects={'a': 1}, default=1)     # declared with named objects: the names dict is a slot value too
 
             def __len__(self):         # instances are falsy (an empty container): None and "empty" must not be confused
                 return 0
@@ -115,6 +116,8 @@ def prog(inst_l: bool, k: int, o1: int, t1: int, v1: int, o2: int, t2: int, v2: 
             assume(len(objs) > t)
             objs[t].param.s.objects.append(v)
             insts[t]['so'].append(v)
+            objs[t].param.sd.objects['k%d' % step] = v          # named objects edited in place on the instance's Parameter
+            insts[t].setdefault('sd', {'a': 1})['k%d' % step] = v
         elif o == 8:   # class-level reassignment of the constant's default
             classes[t].c = v
             cls_c[t] = v
@@ -123,6 +126,8 @@ def prog(inst_l: bool, k: int, o1: int, t1: int, v1: int, o2: int, t2: int, v2: 
             check('C12.class_value', classes[kk].x == cls_val(kk), dict(info, cls=kk))
             check('C12.class_meta', classes[kk].param.x.bounds is None, dict(info, cls=kk))
             check('C12.selector_objects_private', list(classes[kk].param.s.objects) == [], dict(info, cls=kk))
+            check('C12.selector_objects_private', dict(classes[kk].param.sd.names) == {'a': 1}
+                  and list(classes[kk].param.sd.objects) == [1], dict(info, cls=kk, named=True))
         for i, (ob, mi) in enumerate(zip(objs, insts)):
             exp = mi['x'] if mi['x'] is not None else cls_val(mi['k'])
             check('C12.inst_value', ob.x == exp, dict(info, inst=i))
@@ -132,6 +137,7 @@ def prog(inst_l: bool, k: int, o1: int, t1: int, v1: int, o2: int, t2: int, v2: 
                 check('C12.inst_meta_kept', ob.param.x.bounds == mi['b'], dict(info, inst=i))
             if mi['so'] or any(m2['so'] for m2 in insts):
                 check('C12.selector_objects_private', list(ob.param.s.objects) == mi['so'], dict(info, inst=i))
+                check('C12.selector_objects_private', dict(ob.param.sd.names) == mi.get('sd', {'a': 1}), dict(info, inst=i, named=True))
         if not inst_l:
             check('C12.shared_identity', all(ob.l is A.l for ob in objs), info)
         else:
